@@ -86,3 +86,12 @@ def check_wrapper(pm: Any, ctx: Any, rule: str, cls_name: str, func_qual_name: s
               f"{helper.name}(model of this execution): {str(r)[:120]}")
     ctx.check(ret is op, rule, f"wrap-return:{cls_name}", loc(ex.unit.path, ex.node),
               "execute returns the operation object", bad="execute does not return self")
+
+
+def extra_loop_state(pre: list[ast.stmt], loop: ast.While, known: set[str]) -> list[str]:
+    """Locals set up before the loop and used inside it, other than the state the step argument speaks about: a loop
+    that carries such state has an invariant the step check does not know (then the check is not applicable)."""
+    pre_locals = {t.id for st in pre for n in ast.walk(st) if isinstance(n, (ast.Assign, ast.AnnAssign, ast.AugAssign))
+                  for t in (n.targets if isinstance(n, ast.Assign) else [n.target]) if isinstance(t, ast.Name)}
+    used = {n.id for st in loop.body for n in ast.walk(st) if isinstance(n, ast.Name)}
+    return sorted((pre_locals & used) - known)
